@@ -123,3 +123,18 @@ ENTRY.setdefault("lean_props_extra", []).append(_cw.EXTRA_LEAN)
 ENTRY["trusted_base"] = ENTRY["trusted_base"] + _cw.TRUSTED_BASE
 ENTRY["assumptions"] = ENTRY["assumptions"] + _cw.ASSUMPTIONS
 ENTRY["level_text"] = ENTRY["level_text"] + " " + _cw.LEVEL_TEXT
+
+# Fifth session: the asynchronous retry layer production wiring puts on five pipeline edges (app/retry/retry.go Retryer,
+# core/retry.go WithAsyncRetry: fetcher.Fetch, consensus.Participate / Propose, parsigex.Broadcast, bcast.Broadcast):
+# Model/Retry.lean, theorems Props/C01Retry.lean — attempts are sequential, stop after the first success or permanent error,
+# none after the deadline or after Shutdown began, and the cluster operations a retried edge causes are drawn from the list
+# captured at call time any number of times or never, i.e. an op sequence of Model/Cluster.lean (retry_edge_refines_cluster_env:
+# no_two_roots holds verbatim under retries); stream retry (the real Retryer in lock-step, scripted outcomes, timers and
+# deadlines; the wrapped-edge list pinned by go/ast over core/retry.go and core/interfaces.go, fail closed).
+from vlib import snippet_C01retry as _ry
+ENTRY["streams"] = ENTRY["streams"] + [_ry.STREAM]
+ENTRY["lean_props_extra"].append(_ry.EXTRA_LEAN)
+ENTRY["monitor_sigs"] = ENTRY["monitor_sigs"] + [m for m in _ry.MONITOR_SIGS if m not in ENTRY["monitor_sigs"]]
+ENTRY["trusted_base"] = ENTRY["trusted_base"] + _ry.TRUSTED_BASE
+ENTRY["assumptions"] = ENTRY["assumptions"] + _ry.ASSUMPTIONS
+ENTRY["level_text"] = ENTRY["level_text"] + " " + _ry.LEVEL_TEXT
